@@ -49,16 +49,20 @@ class Chan(object):
     def close(self): pass
 class GatedCondition(object):
     """Condition whose wait() parks at the gate (the scheduler decides when a notified waiter resumes)"""
-    def __init__(self): self.lock = threading.Lock()
+    def __init__(self): self.lock = threading.Lock(); self.waiters = {}
     def __enter__(self): self.lock.acquire(); return self
     def __exit__(self, *a): self.lock.release()
     def wait(self, timeout=None):
         if timeout is not None and timeout <= 0: return False
+        me = gate.tids.get(threading.get_ident())
+        self.waiters[me] = False
         self.lock.release()
         gate.point("cv-wait")
         self.lock.acquire()
+        self.waiters.pop(me, None)
         return True
-    def notify_all(self): pass
+    def notify_all(self):
+        for t in self.waiters: self.waiters[t] = True
 chan = Chan()
 conn = Connection(VoidService(), chan)
 conn._recv_event = GatedCondition()
@@ -115,8 +119,11 @@ if stalled:
 
 REPLAY_C13 = '''
 bad = []
-bg._active = False
 left = gate.runnable()
+asleep = [t for t, n in conn._recv_event.waiters.items() if not n]
+if chan.inbox and asleep and not conn._recvlock.locked() and all(gate.position(t) == "cv-wait" for t in left):
+    bad.append("a reply is in the inbox, the receive lock is free and thread(s) %%r sleep in Condition.wait un-notified (lost wake-up)" %% asleep)
+bg._active = False
 done = gate.finish()
 for i, res in enumerate(results):
     if res._is_ready and res._obj != 41 + i: bad.append("request %%d got %%r" %% (i + 1, res._obj))
